@@ -326,6 +326,8 @@ static void child_gdstk(FILE* o, const ALib& L, unsigned flags, unsigned level, 
     // the saved library, without the standard properties (props_text drops them)
     Dump d = library_dump(b.lib, &subst);
     std::string I = d.joined() + " ;; UNIT " + hex_dbl(1e-6 / L.precision);
+    // circle tolerance in grid steps, for the comparison rule (a polygon the writer stored as a CIRCLE within that tolerance)
+    if (tolgrid > 0) I += " ;; CTOL " + hex_i64(tolgrid);
     fprintf(o, "C\tgdstk\t%s %s\n", g_params.c_str(), hex_bytes(sc.spliced.data(), sc.spliced.size()).c_str());
     fprintf(o, "I\t%s\n", I.c_str());
     fprintf(o, "STAT\tcblocks\t%ld\n", (long)sc.cblocks);
